@@ -19,7 +19,10 @@ of every file; all bytes of every path the from-scratch build produced or kept. 
 detached nodes (memories kept for recycling) and edges to them, and the stored step digests
 (`inp_digest`, `out_digest`: derived data; a PENDING optional step keeps its hash after
 `revert_optional_steps`, which is counted as `out-of-scope:pending-step-keeps-hash` and is not a
-violation because the skip decision re-checks both digests, see `skip_sound`).  When the active
+violation because the skip decision re-checks both digests, see `skip_sound`; a step that ran while
+its creator was re-running can be recorded with an input digest that leaves out a re-declared,
+still UNCONFIRMED static input: counted as `out-of-scope:step-digest-recorded-during-creator-rerun`,
+behaviour 2 of notes/simdirector.md, owned by C03/C05).  When the active
 graphs agree, the step digests of SUCCEEDED steps are compared as well and a difference is
 reported under its own signature.
 """
@@ -222,8 +225,35 @@ def run_case(ctx, index: int, *, salt="hist"):
                        "rejected": [[x.label, x.rpc_errors] for x in last.runs if x.rpc_errors][:3],
                        "log": last.log[-5:]}))
         return found, summary, hist
-    found.extend(compare(final, fresh))
+    for sig, what, extra in compare(final, fresh):
+        if sig == "succeeded-step-digest-differs" and _ran_during_creator_rerun(results, final, extra["step"]):
+            # Behaviour 2 of notes/simdirector.md (owned by C03/C05): the step completed while its creator
+            # was re-running and had re-declared a static input that was still UNCONFIRMED, so
+            # `_compute_full_step_hash` left that input out of the stored digest.  States, relations and
+            # outputs agree; the only consequence is one extra hash mismatch (a rerun) later.
+            found.append(("out-of-scope:step-digest-recorded-during-creator-rerun", extra["step"], {}))
+        else:
+            found.append((sig, what, extra))
     return found, summary, hist
+
+
+def _ran_during_creator_rerun(results, final, step_key: str) -> bool:
+    block = buildkit.parse_graph(final.graph_canon).get(step_key)
+    if block is None:
+        return False
+    creators = [buildkit.strip_ref(c)[5:] for c in block.rel("creator") if buildkit.strip_ref(c).startswith("step:")]
+    label = step_key[5:]
+    for res in reversed(results):
+        mine = [r for r in res.runs if r.label == label]
+        if not mine:
+            continue
+        last = mine[-1]
+        for other in res.runs:
+            if other.label in creators and other.start <= (last.end or last.start) and \
+                    (other.end is None or other.end >= last.start):
+                return True
+        return False
+    return False
 
 
 def report(ctx, index, salt, found, hist):
@@ -243,7 +273,7 @@ def report(ctx, index, salt, found, hist):
 
 
 async def search(ctx):
-    n = ctx.budget(260, 6000)
+    n = ctx.budget(240, 4000)
     st = ctx.stats
     for i in range(n):
         found, summary, hist = await asyncio.to_thread(run_case, ctx, i)
